@@ -13,7 +13,10 @@ TEXT["C01"] = dict(
           "histories within the bound follow by induction over operations."),
     note=("Trusted: std HashMap/HashSet replaced by an association list with the same interface under cfg(kani) (the only place "
           "where verified text differs from the text that runs; native replay uses real std), RefCell, better_any downcasts. "
-          "Verus is not applicable to the registry bodies (recursion through fn items, TypeId, dyn+supertraits; DESIGN fact 19)."),
+          "Verus is not applicable to the registry bodies (recursion through fn items, TypeId, dyn+supertraits; DESIGN fact 19). "
+          "All generated triples are additionally run natively with three concrete payload assignments (bounded stand-in, labelled "
+          "native_bounded): it decides changed code on which CBMC does not finish (a change that routes insert through the entry "
+          "API costs 27 GB per solver run)."),
 )
 TEXT["C02"] = dict(
     category="other",
